@@ -60,7 +60,21 @@ theorem set_shape {g : Graph} {s s' : S} {id : Nat} {new : St} (h : set g s id n
     · cases h2; rfl
   rw [e2, e1]
 
-theorem countsList_exact {g : Graph} {s : S} (core : InvCore g s) :
+/-- The facts about a state that justify the events emitted on entering it. -/
+structure Exact (g : Graph) (s : S) : Prop where
+  counts : ∀ x, x ≠ .unknown →
+    s.counts.get x = cnt g.nBuilds (fun b => s.st b == x && !(g.build b).phony)
+  pending : s.pending = cnt g.nBuilds (fun b => active (s.st b))
+  ordered : ∀ b, gated (s.st b) →
+    ∀ f ∈ (g.build b).ordering, ∀ p, g.producer f = some p → s.st p = .done
+
+theorem InvCore.exact {g : Graph} {s : S} (c : InvCore g s) : Exact g s := ⟨c.counts, c.pending, c.ordered⟩
+
+theorem Exact.of_same {g : Graph} {s s' : S} (h : Exact g s) (h1 : s'.st = s.st) (h2 : s'.counts = s.counts)
+    (h3 : s'.pending = s.pending) : Exact g s' :=
+  ⟨by rw [h1, h2]; exact h.counts, by rw [h1, h3]; exact h.pending, by rw [h1]; exact h.ordered⟩
+
+theorem countsList_exact {g : Graph} {s : S} (core : Exact g s) :
     countsList s.counts = exactCounts g s.st := by
   have h := core.counts
   have e1 := h .want (by simp)
@@ -84,15 +98,20 @@ theorem directDone_of {g : Graph} {st : Nat → St} {b : Nat}
 
 /-- **One `set`**: the event it emits is justified, given the invariant core AFTER it. -/
 theorem set_tinv {g : Graph} {par : Nat} {shape : List (Bytes × Nat)} {s s' : S} {id : Nat} {new : St}
-    (ti : TInv g par shape s) (core' : InvCore g s') (h : set g s id new = .ok s')
-    (hid : id < g.nBuilds) (hlegal : legal (s.st id) new = true) : TInv g par shape s' := by
+    (ti : TInv g par shape s) (core' : Exact g s') (h : set g s id new = .ok s')
+    (hid : id < g.nBuilds) (hlegal : legal (s.st id) new = true)
+    (hlim : new = .running → withinLimits g par shape s'.st = true) : TInv g par shape s' := by
   obtain ⟨_, _, -, -, hst, -⟩ := set_spec h
   have htr := set_trace h
   refine ⟨?_, ?_, ?_⟩
   · rw [htr]; simp only [stOf]; rw [ti.st, hst]
   · rw [htr]
     simp only [okTrace, okEv, Bool.and_eq_true, decide_eq_true_eq, beq_iff_eq, Bool.or_eq_true, bne_iff_ne]
-    refine ⟨⟨⟨⟨⟨⟨hid, ?_⟩, hlegal⟩, ?_⟩, ?_⟩, ?_⟩, ti.ok⟩
+    refine ⟨⟨⟨⟨⟨⟨⟨hid, ?_⟩, hlegal⟩, ?_⟩, ?_⟩, ?_⟩, ?_⟩, ti.ok⟩
+    rotate_left 4
+    · by_cases hn : new = .running
+      · right; rw [ti.st, ← hst]; exact hlim hn
+      · left; exact hn
     · rw [ti.st]
     · rw [ti.st, ← hst]; exact countsList_exact core'
     · rw [ti.st, ← hst]; exact core'.pending
@@ -112,7 +131,7 @@ theorem set_tinv {g : Graph} {par : Nat} {shape : List (Bytes × Nat)} {s s' : S
 
 /-- The `update` event at the head of each loop iteration. -/
 theorem update_tinv {g : Graph} {par : Nat} {shape : List (Bytes × Nat)} {s : S}
-    (core : InvCore g s) (ti : TInv g par shape s) :
+    (core : Exact g s) (ti : TInv g par shape s) :
     TInv g par shape { s with trace := Ev.update (countsList s.counts) :: s.trace } := by
   refine ⟨?_, ?_, ti.shape⟩
   · simp only [stOf]; exact ti.st
@@ -145,7 +164,7 @@ theorem promote_inv2 {g : Graph} {par : Nat} {shape : List (Bytes × Nat)} (l : 
         (by rw [hd.1]; simp) (by rw [hd.1]; simp) (fun _ => hd.2.2)
       have hlim := set_limits_same inv hs hd.2.1 (runDelta_zero (by rw [hd.1]; simp) (by simp))
       have inv1 : Inv g par s1 := { hcore with running := hlim.1, parBound := hlim.2.1, depthBound := hlim.2.2 }
-      have ti1 := set_tinv ti hcore hs hd.2.1 (by rw [hd.1]; rfl)
+      have ti1 := set_tinv ti hcore.exact hs hd.2.1 (by rw [hd.1]; rfl) (by intro e; cases e)
       obtain ⟨_, _, -, -, hst, -⟩ := set_spec hs
       simp at hl
       apply ih s1 inv1 ti1 hl.2 _ h
@@ -179,7 +198,7 @@ theorem readyDependents_tinv {g : Graph} {par : Nat} {shape : List (Bytes × Nat
     have core1 := set_core core hs hid (by simp) hprev hnotin
       (by intro e; rcases hst with e' | e' <;> rw [e'] at e <;> cases e)
       (fun _ => core.ordered id hgated)
-    have ti1 := set_tinv ti core1 hs hid (by rcases hst with e | e <;> rw [e] <;> rfl)
+    have ti1 := set_tinv ti core1.exact hs hid (by rcases hst with e | e <;> rw [e] <;> rfl) (by intro e; cases e)
     have hr := set_running hs hid
     obtain ⟨_, _, -, -, hst1, -, -, -, -, hrun1, -⟩ := set_spec hs
     have hpools := set_pools hs core.poolNames
@@ -205,5 +224,385 @@ theorem readyDependents_tinv {g : Graph} {par : Nat} {shape : List (Bytes × Nat
     obtain ⟨hw, hrr⟩ := promotable_spec g s1 id d hm
     exact ⟨hw, core1.valid d (by rw [hw]; simp), recheckReady_sound g s1 d hrr⟩
   · rename_i hne; exact absurd h (hne s')
+
+/-- `enqueue`: the dirty branch of the ready loop; both its normal and its `unknown pool` exit. -/
+theorem enqueue_tinv {g : Graph} {par : Nat} {shape : List (Bytes × Nat)} {s : S} {id : Nat} {rest : List Nat}
+    (inv : Inv g par s) (ti : TInv g par shape s) (hr : s.ready = id :: rest) :
+    match enqueueRun g { s with ready := rest } id with
+    | .inl s1 => TInv g par shape s1
+    | .inr (se, _) => TInv g par shape se := by
+  have hstid : s.st id = .ready := inv.readySt id (by simp [hr])
+  have hid : id < g.nBuilds := inv.valid id (by rw [hstid]; simp)
+  have hnd := inv.readyNodup
+  rw [hr] at hnd
+  simp at hnd
+  have core0 : InvCore g { s with ready := rest } :=
+    { valid := inv.valid, readySt := fun x hx => inv.readySt x (by simp [hr, hx]), readyNodup := hnd.2,
+      poolNames := inv.poolNames, queuedSt := inv.queuedSt, queuedNodup := inv.queuedNodup,
+      poolRunning := inv.poolRunning, counts := inv.counts, pending := inv.pending, ordered := inv.ordered }
+  have ti0 : TInv g par shape { s with ready := rest } := ti.of_same rfl rfl rfl
+  have step : ∀ s2, set g { s with ready := rest } id .queued = .ok s2 → TInv g par shape s2 := by
+    intro s2 hs
+    have core2 := set_core core0 hs hid (by simp) (by simp [hstid]) (fun _ => hnd.1)
+      (by intro e; simp [hstid] at e) (fun _ => inv.ordered id (by rw [hstid]; simp [gated]))
+    exact set_tinv ti0 core2.exact hs hid (by show legal (s.st id) .queued = true; rw [hstid]; rfl) (by intro e; cases e)
+  cases hres : enqueueRun g { s with ready := rest } id with
+  | inl s1 =>
+    simp only []
+    unfold enqueueRun at hres
+    split at hres
+    · rename_i s2 hs
+      split at hres
+      · rename_i pools hm
+        cases hres
+        exact (step s2 hs).of_same rfl rfl (modPool_shape _ _ _ (fun p => { p with queued := p.queued ++ [id] }) (fun p => ⟨rfl, rfl⟩) hm)
+      · cases hres
+    · rename_i r hne
+      exact absurd (resToRun_inl hres) (hne s1)
+  | inr x =>
+    obtain ⟨se, rr⟩ := x
+    simp only []
+    unfold enqueueRun at hres
+    split at hres
+    · rename_i s2 hs
+      split at hres
+      · cases hres
+      · rename_i hm; cases hres; exact step _ hs
+    · rw [resToRun_inr hres]; exact ti0
+
+/-- In a state satisfying the invariant both limits hold. -/
+theorem withinLimits_of {g : Graph} {par : Nat} {shape : List (Bytes × Nat)} {s : S} (inv : Inv g par s)
+    (hshape : poolShape s.pools = shape) : withinLimits g par shape s.st = true := by
+  simp only [withinLimits, Bool.and_eq_true, decide_eq_true_eq, List.all_eq_true, Bool.or_eq_true, beq_iff_eq]
+  refine ⟨?_, ?_⟩
+  · have h1 := inv.running
+    have h2 := inv.parBound
+    omega
+  · intro nd hnd
+    rw [← hshape] at hnd
+    unfold poolShape at hnd
+    simp only [List.mem_map] at hnd
+    obtain ⟨x, hx, rfl⟩ := hnd
+    simp only []
+    by_cases hd : x.depth = 0
+    · left; exact hd
+    · right
+      have h1 := inv.poolRunning x hx
+      have h2 := inv.depthBound x hx (by omega)
+      omega
+
+/-- Starting a command: the `set .. Running` event and the `start` event. -/
+theorem start_tinv {g : Graph} {par : Nat} {shape : List (Bytes × Nat)} {s s1 : S} {id : Nat} {pools : List Pool}
+    (inv : Inv g par s) (ti : TInv g par shape s) (hlt : s.running < par)
+    (hpop : popQueued s.pools = some (id, pools))
+    (h : set g { s with pools := pools } id .running = .ok s1) :
+    TInv g par shape { s1 with running := s1.running + 1, trace := Ev.start id :: s1.trace } := by
+  have inv2 := start_inv inv hlt hpop h
+  obtain ⟨p, q, hp, hq, hroom, hps⟩ := popQueued_spec _ _ _ inv.poolNames hpop
+  have hpq := inv.queuedSt p hp id (by simp [hq])
+  have hstid : s.st id = .queued := hpq.1
+  have hid : id < g.nBuilds := inv.valid id (by rw [hstid]; simp)
+  have hshape : poolShape pools = poolShape s.pools := by
+    rw [hps]; unfold poolShape; rw [List.map_map]; apply List.map_congr_left
+    intro x _; simp only [Function.comp]; split <;> rfl
+  have ti0 : TInv g par shape { s with pools := pools } := ti.of_same rfl rfl hshape
+  have ex1 : Exact g s1 := inv2.toInvCore.exact.of_same rfl rfl rfl
+  have hsh1 : poolShape s1.pools = shape := by rw [set_shape h]; exact ti0.shape
+  have hwl : withinLimits g par shape s1.st = true := withinLimits_of (s := { s1 with running := s1.running + 1, trace := Ev.start id :: s1.trace }) inv2 hsh1
+  have ti1 := set_tinv ti0 ex1 h hid (by show legal (s.st id) .running = true; rw [hstid]; rfl) (fun _ => hwl)
+  have htr := set_trace h
+  refine ⟨?_, ?_, ti1.shape⟩
+  · simp only [stOf]; exact ti1.st
+  · simp only [okTrace, okEv, Bool.and_eq_true, List.any_eq_true, beq_iff_eq]
+    refine ⟨⟨⟨⟨?_, ?_⟩, ?_⟩, ?_⟩, ti1.ok⟩
+    · rw [htr]; show (match Ev.set id (s.st id) .running _ _ :: s.trace with
+        | .set b' .queued .running _ _ :: _ => b' == id | _ => false) = true
+      rw [hstid]; simp
+    · rw [ti1.st]; exact hwl
+    · refine ⟨(p.name, p.depth), ?_, by simp [hpq.2]⟩
+      rw [← ti.shape]; unfold poolShape; simp only [List.mem_map]; exact ⟨p, hp, rfl⟩
+    · rw [ti1.st]
+      apply directDone_of
+      have hst1 : s1.st id = .running := by
+        obtain ⟨_, _, -, -, hst, -⟩ := set_spec h
+        rw [hst]; simp
+      exact inv2.ordered id (by show gated (s1.st id); rw [hst1]; simp [gated])
+
+/-- The start loop, normal exit. -/
+theorem startLoop_inl_inv2 {g : Graph} {par : Nat} {shape : List (Bytes × Nat)} (fuel : Nat) (s : S) (p : Bool)
+    (inv : Inv g par s) (ti : TInv g par shape s)
+    (s' : S) (p' : Bool) (h : startLoop g par fuel s p = .inl (s', p')) :
+    Inv g par s' ∧ TInv g par shape s' := by
+  induction fuel generalizing s p with
+  | zero => simp [startLoop] at h
+  | succ fuel ih =>
+    unfold startLoop at h
+    split at h
+    · rename_i hlt
+      split at h
+      · cases h; exact ⟨inv, ti⟩
+      · rename_i id pools hpop
+        split at h
+        · rename_i s1 hs
+          exact ih _ _ (start_inv inv hlt hpop (resToRun_inl hs)) (start_tinv inv ti hlt hpop (resToRun_inl hs)) h
+        · cases h
+    · cases h; exact ⟨inv, ti⟩
+
+/-- The start loop, error exit. -/
+theorem startLoop_inr_tinv {g : Graph} {par : Nat} {shape : List (Bytes × Nat)} (fuel : Nat) (s : S) (p : Bool)
+    (inv : Inv g par s) (ti : TInv g par shape s)
+    (se : S) (r : RunResult) (h : startLoop g par fuel s p = .inr (se, r)) : TInv g par shape se := by
+  induction fuel generalizing s p with
+  | zero => simp [startLoop] at h; rw [← h.1]; exact ti
+  | succ fuel ih =>
+    unfold startLoop at h
+    split at h
+    · rename_i hlt
+      split at h
+      · cases h
+      · rename_i id pools hpop
+        split at h
+        · rename_i s1 hs
+          exact ih _ _ (start_inv inv hlt hpop (resToRun_inl hs)) (start_tinv inv ti hlt hpop (resToRun_inl hs)) h
+        · rename_i r' hr
+          cases h
+          rw [resToRun_inr hr]; exact ti
+    · cases h
+
+/-- A ready build turned out clean / was adopted. -/
+theorem clean_tinv {g : Graph} {par : Nat} {shape : List (Bytes × Nat)} {s s1 : S} {id : Nat} {rest perm : List Nat}
+    (inv : Inv g par s) (ti : TInv g par shape s) (hr : s.ready = id :: rest)
+    (h : readyDependents g { s with ready := rest } id perm = .ok s1) : TInv g par shape s1 := by
+  have hstid : s.st id = .ready := inv.readySt id (by simp [hr])
+  have hid : id < g.nBuilds := inv.valid id (by rw [hstid]; simp)
+  have hnd := inv.readyNodup
+  rw [hr] at hnd
+  simp at hnd
+  have core0 : InvCore g { s with ready := rest } :=
+    { valid := inv.valid, readySt := fun x hx => inv.readySt x (by simp [hr, hx]), readyNodup := hnd.2,
+      poolNames := inv.poolNames, queuedSt := inv.queuedSt, queuedNodup := inv.queuedNodup,
+      poolRunning := inv.poolRunning, counts := inv.counts, pending := inv.pending, ordered := inv.ordered }
+  apply readyDependents_tinv core0 (ti.of_same rfl rfl rfl) hid (Or.inl hstid) (fun _ => hnd.1) _
+    inv.parBound inv.depthBound h
+  show (s.running : Int) = _
+  simp [hstid]
+  exact inv.running
+
+/-- A running command succeeded. -/
+theorem succeeded_tinv {g : Graph} {par : Nat} {shape : List (Bytes × Nat)} {s s1 : S} {id : Nat}
+    {perm : List Nat} (s0 : S)
+    (inv : Inv g par s) (ti0 : TInv g par shape s0) (hst : s.st id = .running)
+    (hcore : s0.st = s.st ∧ s0.counts = s.counts ∧ s0.pending = s.pending ∧ s0.ready = s.ready ∧ s0.pools = s.pools)
+    (hrun0 : s0.running = s.running - 1)
+    (h : readyDependents g s0 id perm = .ok s1) : TInv g par shape s1 := by
+  obtain ⟨c1, c2, c3, c4, c5⟩ := hcore
+  have hid : id < g.nBuilds := inv.valid id (by rw [hst]; simp)
+  have core0 : InvCore g s0 :=
+    { valid := by rw [c1]; exact inv.valid, readySt := by rw [c1, c4]; exact inv.readySt,
+      readyNodup := by rw [c4]; exact inv.readyNodup, poolNames := by rw [c5]; exact inv.poolNames,
+      queuedSt := by rw [c1, c5]; exact inv.queuedSt, queuedNodup := by rw [c5]; exact inv.queuedNodup,
+      poolRunning := by rw [c1, c5]; exact inv.poolRunning, counts := by rw [c1, c2]; exact inv.counts,
+      pending := by rw [c1, c3]; exact inv.pending, ordered := by rw [c1]; exact inv.ordered }
+  have hst0 : s0.st id = .running := by rw [c1]; exact hst
+  apply readyDependents_tinv core0 ti0 hid (Or.inr hst0) (by intro e; simp [hst0] at e) _ _ _ h
+  · rw [hrun0, c1]; simp [hst]; have := inv.running; omega
+  · rw [hrun0]; have := inv.parBound; omega
+  · rw [c5]; exact inv.depthBound
+
+/-- The ready loop, normal exit. -/
+theorem readyLoop_inl_inv2 {E : Type} {g : Graph} {par : Nat} {shape : List (Bytes × Nat)} (c : Choices E)
+    (fuel : Nat) (s : S) (e : E) (perms : List (List Nat)) (p : Bool)
+    (inv : Inv g par s) (ti : TInv g par shape s)
+    (s' : S) (e' : E) (perms' : List (List Nat)) (p' : Bool)
+    (h : readyLoop g c fuel s e perms p = .inl (s', e', perms', p')) :
+    Inv g par s' ∧ TInv g par shape s' := by
+  induction fuel generalizing s e perms p with
+  | zero => simp [readyLoop] at h
+  | succ fuel ih =>
+    unfold readyLoop at h
+    split at h
+    · cases h; exact ⟨inv, ti⟩
+    · rename_i id rest hr
+      simp only [] at h
+      split at h
+      · cases h
+      · rename_i dirty e1 hc
+        split at h
+        · split at h
+          · rename_i s1 hs
+            exact ih _ _ _ _ (clean_inv inv hr (resToRun_inl hs)) (clean_tinv inv ti hr (resToRun_inl hs)) h
+          · cases h
+        · split at h
+          · split at h
+            · rename_i s1 hs
+              exact ih _ _ _ _ (clean_inv inv hr (resToRun_inl hs)) (clean_tinv inv ti hr (resToRun_inl hs)) h
+            · cases h
+          · split at h
+            · rename_i s1 hs
+              have hq := enqueue_tinv inv ti hr
+              rw [hs] at hq
+              exact ih _ _ _ _ (enqueue_inv inv hr hs) hq h
+            · cases h
+
+/-- The ready loop, error exit. -/
+theorem readyLoop_inr_tinv {E : Type} {g : Graph} {par : Nat} {shape : List (Bytes × Nat)} (c : Choices E)
+    (fuel : Nat) (s : S) (e : E) (perms : List (List Nat)) (p : Bool)
+    (inv : Inv g par s) (ti : TInv g par shape s)
+    (se : S) (e' : E) (r : RunResult)
+    (h : readyLoop g c fuel s e perms p = .inr (se, e', r)) : TInv g par shape se := by
+  induction fuel generalizing s e perms p with
+  | zero => simp [readyLoop] at h; rw [← h.1]; exact ti
+  | succ fuel ih =>
+    unfold readyLoop at h
+    split at h
+    · cases h
+    · rename_i id rest hr
+      have ti0 : TInv g par shape { s with ready := rest } := ti.of_same rfl rfl rfl
+      simp only [] at h
+      split at h
+      · cases h; exact ti0
+      · rename_i dirty e1 hc
+        split at h
+        · split at h
+          · rename_i s1 hs
+            exact ih _ _ _ _ (clean_inv inv hr (resToRun_inl hs)) (clean_tinv inv ti hr (resToRun_inl hs)) h
+          · rename_i se' r' hs
+            cases h
+            rw [resToRun_inr hs]; exact ti0
+        · split at h
+          · split at h
+            · rename_i s1 hs
+              exact ih _ _ _ _ (clean_inv inv hr (resToRun_inl hs)) (clean_tinv inv ti hr (resToRun_inl hs)) h
+            · rename_i se' r' hs
+              cases h
+              rw [resToRun_inr hs]; exact ti0
+          · have hq := enqueue_tinv inv ti hr
+            split at h
+            · rename_i s1 hs
+              rw [hs] at hq
+              exact ih _ _ _ _ (enqueue_inv inv hr hs) hq h
+            · rename_i se' r' hs
+              rw [hs] at hq
+              cases h
+              exact hq
+
+/-- **Every trace `Work::run` can produce satisfies the trace specification** — whatever the
+    graph, `-j`, the environment's answers, the order in which commands finish and how, and
+    whatever the outcome (success, failure, interruption, error, even running out of choices). -/
+theorem runLoop_tinv {E : Type} {g : Graph} {par : Nat} {shape : List (Bytes × Nat)} (c : Choices E)
+    (fuel : Nat) (s : S) (e : E) (perms : List (List Nat)) (fin : List (Nat × Term))
+    (inv : Inv g par s) (ti : TInv g par shape s) :
+    TInv g par shape (runLoop g par c fuel s e perms fin).s := by
+  induction fuel generalizing s e perms fin with
+  | zero => simp only [runLoop]; exact ti
+  | succ fuel ih =>
+    unfold runLoop
+    by_cases hp : s.pending ≤ 0
+    · simp only [hp, if_true]; exact ti
+    · simp only [hp, if_false]
+      have inv0 : Inv g par { s with trace := Ev.update (countsList s.counts) :: s.trace } :=
+        Inv.of_sameCore (s := s) ⟨rfl, rfl, rfl, rfl, rfl, rfl⟩ inv
+      have ti0 := update_tinv inv.toInvCore.exact ti
+      cases h1 : startLoop g par (g.nBuilds + 1) { s with trace := Ev.update (countsList s.counts) :: s.trace } false with
+      | inr r =>
+        obtain ⟨se, rr⟩ := r
+        simp only []
+        exact startLoop_inr_tinv _ _ _ inv0 ti0 _ _ h1
+      | inl r =>
+        obtain ⟨s1, p1⟩ := r
+        simp only []
+        obtain ⟨i1, t1⟩ := startLoop_inl_inv2 _ _ _ inv0 ti0 _ _ h1
+        cases h2 : readyLoop g c (g.nBuilds + 1) s1 e perms false with
+        | inr r =>
+          obtain ⟨se, e2, rr⟩ := r
+          simp only []
+          exact readyLoop_inr_tinv c _ _ _ _ _ i1 t1 _ _ _ h2
+        | inl r =>
+          obtain ⟨s2, e2, perms2, p2⟩ := r
+          simp only []
+          obtain ⟨i2, t2⟩ := readyLoop_inl_inv2 c _ _ _ _ _ i1 t1 _ _ _ _ h2
+          by_cases hpp : (p1 || p2) = true
+          · simp only [hpp, if_true]; exact ih _ _ _ _ i2 t2
+          · simp only [hpp, Bool.false_eq_true, if_false]
+            by_cases hrun : s2.running ≤ 0
+            · simp only [hrun, if_true]; split <;> exact t2
+            · simp only [hrun, if_false]
+              cases fin with
+              | nil => exact t2
+              | cons ft fin' =>
+                obtain ⟨id, t⟩ := ft
+                simp only []
+                by_cases hst : s2.st id ≠ .running
+                · rw [if_pos hst]; exact t2
+                · rw [if_neg hst]
+                  have hst' : s2.st id = .running := by simpa using hst
+                  have t3 := finish_tinv t t2 hst'
+                  have hid : id < g.nBuilds := i2.valid id (by rw [hst']; simp)
+                  cases t with
+                  | interrupted => exact t3
+                  | failure =>
+                    simp only []
+                    cases hfl : s2.failuresLeft with
+                    | none =>
+                      simp only []
+                      generalize h4 : resToRun _ _ = r4
+                      cases r4 with
+                      | inl s4 =>
+                        simp only []
+                        have i4 : Inv g par s4 := by
+                          refine failed_inv _ i2 hst' ?_ ?_ (resToRun_inl h4)
+                          · exact ⟨rfl, rfl, rfl, rfl, rfl⟩
+                          · rfl
+                        refine ih _ _ _ _ i4 ?_
+                        refine set_tinv ?_ i4.toInvCore.exact (resToRun_inl h4) hid ?_ (by intro e; cases e)
+                        · exact t3.of_same rfl rfl rfl
+                        · show legal (s2.st id) .failed = true; rw [hst']; rfl
+                      | inr r =>
+                        obtain ⟨se, rr⟩ := r
+                        simp only []
+                        rw [resToRun_inr h4]; exact t3.of_same rfl rfl rfl
+                    | some n =>
+                      simp only []
+                      by_cases hn0 : n = 0
+                      · rw [if_pos hn0]; exact t3.of_same rfl rfl rfl
+                      · rw [if_neg hn0]
+                        by_cases hn1 : n - 1 = 0
+                        · rw [if_pos hn1]; exact t3.of_same rfl rfl rfl
+                        · rw [if_neg hn1]
+                          generalize h4 : resToRun _ _ = r4
+                          cases r4 with
+                          | inl s4 =>
+                            simp only []
+                            have i4 : Inv g par s4 := by
+                              refine failed_inv _ i2 hst' ?_ ?_ (resToRun_inl h4)
+                              · exact ⟨rfl, rfl, rfl, rfl, rfl⟩
+                              · rfl
+                            refine ih _ _ _ _ i4 ?_
+                            refine set_tinv ?_ i4.toInvCore.exact (resToRun_inl h4) hid ?_ (by intro e; cases e)
+                            · exact t3.of_same rfl rfl rfl
+                            · show legal (s2.st id) .failed = true; rw [hst']; rfl
+                          | inr r =>
+                            obtain ⟨se, rr⟩ := r
+                            simp only []
+                            rw [resToRun_inr h4]; exact t3.of_same rfl rfl rfl
+                  | success =>
+                    simp only []
+                    generalize h4 : resToRun _ _ = r4
+                    cases r4 with
+                    | inl s4 =>
+                      simp only []
+                      have i4 : Inv g par s4 := by
+                        refine succeeded_inv _ i2 hst' ?_ ?_ (resToRun_inl h4)
+                        · exact ⟨rfl, rfl, rfl, rfl, rfl⟩
+                        · rfl
+                      refine ih _ _ _ _ i4 ?_
+                      refine succeeded_tinv _ i2 ?_ hst' ?_ ?_ (resToRun_inl h4)
+                      · exact t3.of_same rfl rfl rfl
+                      · exact ⟨rfl, rfl, rfl, rfl, rfl⟩
+                      · rfl
+                    | inr r =>
+                      obtain ⟨se, rr⟩ := r
+                      simp only []
+                      rw [resToRun_inr h4]; exact t3.of_same rfl rfl rfl
 
 end N2V.Sched
